@@ -116,6 +116,8 @@ def gen_write_op(rng, model, prof):
         if rng.random() < 0.3 and not via_h:
             op["compact"] = True
         op["ps_form"] = rng.choice(["list", "list", "tuple", "gen", "iter", "values"])
+        # (one Point object is never given twice: MemoryStorage keeps the caller's objects themselves, so a second
+        # insert of the same object aliases two stored positions - the listed in-place-mutation finding, not generated)
         if prof.failing_batches and rng.random() < 0.12:
             # the batch fails part-way (histories include operations that raise): the points before the offending
             # element are stored, the call raises
